@@ -3,10 +3,10 @@
 # Runs the current check of <Cxx> against a scratch copy of /repo HEAD with the patch applied
 # (neither /repo nor /verif/evidence is touched); prints the verdict lines.
 export GOFLAGS=-mod=mod GOPROXY=off GOSUMDB=off GOTOOLCHAIN=local
-patch="$(readlink -f "$1")"; P="$2"; mode="${3:-quick}"
+patch="$1"; [ "$patch" != "-" ] && patch="$(readlink -f "$1")"; P="$2"; mode="${3:-quick}"   # patch "-" = unchanged tree
 w="/tmp/try.$$"; mkdir -p "$w/repo" "$w/verif/evidence"
 git -C /repo archive HEAD | tar -x -C "$w/repo"
-if ! (cd "$w/repo" && git init -q . && git apply "$patch"); then echo "patch does not apply"; rm -rf "$w"; exit 9; fi
+if [ "$patch" != "-" ] && ! (cd "$w/repo" && git init -q . && git apply "$patch"); then echo "patch does not apply"; rm -rf "$w"; exit 9; fi
 cp -r /verif/harness /verif/check /verif/known_findings.json "$w/verif/"
 (cd "$w/verif" && VERIF_REPO="$w/repo" ./check "$P" "$mode" 2>&1 | grep -E "^(VIOLATION|INCONCLUSIVE|KNOWN|C[0-9]+ )" | cut -c1-400 | head -8)
 rm -rf "$w"
